@@ -20,6 +20,10 @@ def tlc_replay(run, name, module, cfg, family, profiles=('debug',), workers=None
         pass
 
 
+def grammar(run, fam, family='syntax', profiles=('debug',)):
+    tlc_replay(run, 'grammar-' + fam, 'MC_Grammar.tla', 'MC_Grammar_%s_%s.cfg' % (fam, run.tier), family, profiles=profiles, xss='256m')
+
+
 def table(run, kinds_cfg):
     cfg = 'MC_Table_%s_%s.cfg' % (kinds_cfg, run.tier)
     tlc_replay(run, 'table-' + kinds_cfg, 'MC_Table.tla', cfg, 'table')
@@ -175,6 +179,11 @@ def C09(run):
                 + INTERP_NOTE)
     for fam in ['ILL', 'FN', 'AR', 'MU', 'DICT'] + (['CF', 'IO'] if run.tier == 'thorough' else []):
         interp(run, fam, profiles=('debug', 'release'))
+    # parser-accepted TEXTS: degenerate and long poetic literals, every statement kind in every spelling, value-level corner cases
+    grammar(run, 'poetic', family='poeticrun', profiles=('debug', 'release'))
+    grammar(run, 'e2e', family='e2e', profiles=('debug', 'release'))
+    tlc_replay(run, 'table-C06', 'MC_Table.tla', 'MC_Table_C06_%s.cfg' % run.tier, 'table', profiles=('debug', 'release'))
+    tlc_replay(run, 'table-C07', 'MC_Table.tla', 'MC_Table_C07_%s.cfg' % run.tier, 'table', profiles=('debug', 'release'))
 
 
 def C10(run):
@@ -190,8 +199,11 @@ def C15(run):
     run.rule = ('family RN: every FN/MU (thorough: also CF) program under 4-8 injective renamings of its 30 abstract names into simple, common and '
                 'proper names (accented letters included), every mention in another letter case; output, outcome and every statement event must '
                 'equal the unrenamed model run; Names.tla invariants (case-folded key equal across spellings, distinct for distinct names) by TLC')
-    run.assumptions += ['keyword case and text-level spelling are covered by the grammar family of C02, not here']
+    run.rule += ('; family e2e: the expressible FN/MU/CF/IO programs rendered by Grammar.tla under pseudo-random tapes (keyword aliases and case, '
+                 'name kind and per-mention case) must run exactly like the model (events incl. physical statement lines, lint report)')
     interp(run, 'RN', family='rename')
+    # text level: keywords and every name mention in pseudo-randomly varied letter case, names of all three kinds
+    grammar(run, 'e2e', family='e2e')
 
 
 _C06_table, _C07_table = C06, C07
@@ -242,10 +254,8 @@ def C19(run):
                 '(thorough: triples) of 19 mention-order statements must equal the model; TLC checks sortedness, tie order and the repeated-'
                 'identifier definition on the model; the program must be unchanged and the linter must not panic')
     lintjob(run, 'lint', 'lint')
-
-
-def grammar(run, fam, family='syntax', profiles=('debug',)):
-    tlc_replay(run, 'grammar-' + fam, 'MC_Grammar.tla', 'MC_Grammar_%s_%s.cfg' % (fam, run.tier), family, profiles=profiles, xss='256m')
+    if run.tier == 'thorough':
+        grammar(run, 'e2e', family='e2e')       # reports on rendered programs: physical line numbers, real mention spellings
 
 
 def C02(run):
@@ -259,6 +269,8 @@ def C02(run):
     run.assumptions += ['"every spelling" = the choice points of Grammar.tla (grown from the alias table and the parser\'s optional-token sites)']
     for fam in ('expr', 'stmt', 'block'):
         grammar(run, fam)
+    if run.tier == 'thorough':
+        grammar(run, 'e2e', family='e2e')
 
 
 def C11(run):
